@@ -57,3 +57,4 @@ import subprocess
 subprocess.call(["python3", os.path.join(V, "tools", "mkfindings_md.py")])
 subprocess.call(["python3", os.path.join(V, "tools", "mkseeded_md.py")])
 subprocess.call(["python3", os.path.join(V, "tools", "mktheorems_md.py")])
+subprocess.call(["python3", os.path.join(V, "tools", "mkasbuilt.py")])
